@@ -24,7 +24,11 @@ def make_cases(chk):
            "elim", "elim", "elim", "binop", "reduce", "neg", "remove_axes"]
     for i in range(260 if quick else 20000):
         scale = None if i % 4 else rng.choice([FR(10**6), FR(3 * 10**6), FR(10**7), FR(10**8)])
-        h = Hist("h%d" % i, rng, max_ops=5 if quick else 6, ops=ops, export_all=True, scale=scale)
+        if i % 9 == 4:
+            h = Hist("h%d" % i, rng, n=2, max_ops=3, ops=["elim", "elim", "compose_f_schema", "apply_func", "compose_t_schema"],
+                     export_all=True, start="wedge")
+        else:
+            h = Hist("h%d" % i, rng, max_ops=5 if quick else 6, ops=ops, export_all=True, scale=scale)
         if "elim" not in h.word:
             h._op("elim")
             h._op(rng.choice(["compose_f_schema", "compose_t_schema", "apply_func", "binop", "reduce"]))
